@@ -235,7 +235,8 @@ class mm_reader {
                 Idx beg = ptr[i];
                 Idx end = ptr[i+1];
 
-                amgcl::detail::sort_row(&col[0] + beg, &val[0] + beg, end - beg);
+                if (beg < end)
+                    amgcl::detail::sort_row(&col[0] + beg, &val[0] + beg, end - beg);
             }
 
             return std::make_tuple(chunk, m);
